@@ -114,7 +114,7 @@ impl<'a> Bulk<'a> {
                 (k.class(), k.tag(), x.payload())
             })
             .collect();
-        let mut w: Vec<(u32, u32, u32)> = want.iter().map(|e| (e.0, if F::TRACKED { e.1 } else { 0 }, e.2)).collect();
+        let mut w: Vec<(u32, u32, u32)> = want.iter().map(|e| (e.0, if F::IDENT { <F::K as KeyF>::norm_tag(e.1) } else { 0 }, e.2)).collect();
         g.sort_unstable();
         w.sort_unstable();
         if g != w || got.len() != want.len() {
@@ -129,7 +129,7 @@ impl<'a> Bulk<'a> {
                 (k.class(), k.tag())
             })
             .collect();
-        let mut w: Vec<(u32, u32)> = want.iter().map(|e| (e.0, if F::TRACKED { e.1 } else { 0 })).collect();
+        let mut w: Vec<(u32, u32)> = want.iter().map(|e| (e.0, if F::IDENT { <F::K as KeyF>::norm_tag(e.1) } else { 0 })).collect();
         g.sort_unstable();
         w.sort_unstable();
         if g != w || got.len() != want.len() {
